@@ -16,6 +16,10 @@ import Ampverif.Lemmas.C04Rest
 import Ampverif.Lemmas.C04Opposite
 import Ampverif.Lemmas.C04Inst
 import Ampverif.Lemmas.C04TreeInst
+import Ampverif.Lemmas.C04TreeFull
+import Ampverif.Lemmas.C04Event
+import Ampverif.Lemmas.C04HalfCover
+import Ampverif.Lemmas.C04SpinTables
 import Ampverif.Model.C04Frames
 
 namespace Ampverif.Props.C04
@@ -140,6 +144,61 @@ two Euler rotations -/
 theorem C04_I_sympy_D1_homomorphism (α β γ α' β' γ' : ℝ) :
     D1 α β γ * D1 α' β' γ' = W1.D (euler α β γ * euler α' β' γ') := by
   rw [sympy_D1_eq, sympy_D1_eq, W1.mul _ _ (euler_isRot _ _ _) (euler_isRot _ _ _)]
+
+/-! ### J = 1/2: SymPy's `Rotation.D(1/2, m, m', α, β, γ).doit()` (regenerated 2×2 matrix `Dh`) -/
+
+/-- unitary for all angles -/
+theorem C04_I_sympy_Dhalf_unitary (α β γ : ℝ) : (Dh α β γ)ᴴ * Dh α β γ = 1 := Dh_unitary α β γ
+
+/-- `diag(e^{-iα/2}, e^{iα/2})` on z-rotations -/
+theorem C04_I_sympy_Dhalf_z_diagonal (α : ℝ) :
+    Dh α 0 0 = !![ce (-α / 2), 0; 0, ce (α / 2)] := Dh_z_diagonal α
+
+/-- its adjoint action on `v·σ` is the Euler rotation: the covering SU(2) → SO(3) -/
+theorem C04_I_sympy_Dhalf_covers_rotation (α β γ : ℝ) (v : Fin 3 → ℝ) :
+    Dh α β γ * pauli v * (Dh α β γ)ᴴ = pauli (euler α β γ *ᵥ v) := adj_Dh α β γ v
+
+/-- homomorphism UP TO THE SU(2) SIGN: if the Euler rotations compose, the D^{1/2} compose up to ± -/
+theorem C04_I_sympy_Dhalf_homomorphism_up_to_sign (α β γ α' β' γ' α'' β'' γ'' : ℝ)
+    (h : euler α β γ * euler α' β' γ' = euler α'' β'' γ'') :
+    Dh α β γ * Dh α' β' γ' = Dh α'' β'' γ'' ∨ Dh α β γ * Dh α' β' γ' = -Dh α'' β'' γ'' :=
+  Dh_mul_sign α β γ α' β' γ' α'' β'' γ'' h
+
+/-- the sign is really there: a full turn is the same rotation but flips D^{1/2} (and not D¹) -/
+theorem C04_I_full_turn_flips_spin_half (α β γ : ℝ) :
+    euler (α + 2 * Real.pi) β γ = euler α β γ ∧ Dh (α + 2 * Real.pi) β γ = -Dh α β γ ∧
+      D1 (α + 2 * Real.pi) β γ = D1 α β γ :=
+  ⟨euler_two_pi α β γ, Dh_two_pi α β γ, D1_two_pi α β γ⟩
+
+/-- hence no `WignerRep` (a representation of rotation MATRICES) has weight 1/2: half-integer spins
+are outside layer (A) as formulated; they need the double cover -/
+theorem C04_I_no_spin_half_representation_of_SO3 (W : WignerRep 2) (h0 : W.wt 0 = 1 / 2) : False :=
+  no_half_integer_WignerRep W h0
+
+/-- WHY the known class "axis-angle alignment with half-integer spins" exists. The regenerated
+`Phi = atan2(p_y, p_x)` is π on the negative x axis, φ ∈ (π/2, π) just above it and −φ just below it
+(branch cut); the continuous continuation across the cut is 2π − φ. For spin 1/2 the value the
+library uses differs from the continuation by a SIGN, for spin 1 it does not. -/
+theorem C04_W_branch_cut_flips_sign_for_spin_half (y φ β γ : ℝ) (hy : 0 < y) :
+    PhiOf (-1) 0 = Real.pi ∧ (Real.pi / 2 < PhiOf (-1) y ∧ PhiOf (-1) y < Real.pi) ∧
+      PhiOf (-1) (-y) = -PhiOf (-1) y ∧
+      Dh (-φ) β γ = -Dh (2 * Real.pi - φ) β γ ∧ D1 (-φ) β γ = D1 (2 * Real.pi - φ) β γ :=
+  ⟨PhiOf_on_cut, PhiOf_above_cut y hy, PhiOf_below_cut y hy, branch_cut_sign_half φ β γ,
+    branch_cut_no_sign_one φ β γ⟩
+
+/-! ### J ≤ 5/2: unitarity from the regenerated d-tables (`Gen/C05Wigner.lean`) -/
+
+/-- `D^J(α,β,γ) = e^{-imα} d^J(β) e^{-im'γ}` is unitary for every J = j2/2 ≤ 5/2 and all angles -/
+theorem C04_I_unitary_up_to_spin_five_halves (j2 : ℕ) (hj : j2 ≤ 5) (α β γ : ℝ) :
+    DJ j2 α β γ * (DJ j2 α β γ)ᴴ = 1 := DJ_unitary j2 hj α β γ
+
+/-- J = 3/2 -/
+theorem C04_I_spin_three_halves_unitary (α β γ : ℝ) : DJ 3 α β γ * (DJ 3 α β γ)ᴴ = 1 :=
+  DJ_unitary 3 (by norm_num) α β γ
+
+/-- J = 2 -/
+theorem C04_I_spin_two_unitary (α β γ : ℝ) : DJ 4 α β γ * (DJ 4 α β γ)ᴴ = 1 :=
+  DJ_unitary 4 (by norm_num) α β γ
 
 /-! ## (KA) kinematics and algebra combined: two-level chains (three-body decays) -/
 
@@ -301,11 +360,8 @@ theorem C04_partial_J01_all_trees (T : Type) [Fintype T] (tree : T → Tree)
       = ∑ m ∈ projs twoJ, Complex.normSq (∑ t, c t * amp F01 (tree t) (fr t) m) :=
   intensity_rotated F01 T tree c fr fr' R twoJ hJ hR ht hrot
 
-/-- FULL STATEMENT on trees (kept as a definition, NOT proved): as
-`C04_partial_all_trees_spinless`, but a SINGLE topology may have final states with spin (then each
-final-state helicity configuration only picks up a unit phase). Also not covered by any theorem
-here: half-integer spins (they need a family on the double cover), and the packaging of the
-level-by-level kinematic lemmas into one induction that produces `Rotated` from rotated momenta. -/
+/-- FULL STATEMENT on trees: as `C04_partial_all_trees_spinless`, and in addition a SINGLE topology
+may have final states with any (provided) spin. -/
 def C04_full_statement : Prop :=
   ∀ (F : RepFamily) (T : Type) [Fintype T] (tree : T → Tree) (c : T → ℂ) (fr fr' : T → Frames)
     (R : Matrix (Fin 3) (Fin 3) ℝ) (twoJ : ℕ), F.ok twoJ → IsRot R →
@@ -314,6 +370,60 @@ def C04_full_statement : Prop :=
     (∀ t, Rotated R (fr t) (fr' t)) →
     ∑ m ∈ projs twoJ, Complex.normSq (∑ t, c t * amp F (tree t) (fr' t) m)
       = ∑ m ∈ projs twoJ, Complex.normSq (∑ t, c t * amp F (tree t) (fr t) m)
+
+/-- the full tree statement is PROVED (conditional on the abstract `RepFamily` only); with final
+state spins each helicity configuration picks up a unit phase (`amp_rotated_phase`). -/
+theorem C04_full_trees : C04_full_statement :=
+  fun F T _ tree c fr fr' R twoJ hJ hR ht hcase hrot =>
+    intensity_rotated_full F T tree c fr fr' R twoJ hJ hR ht hcase hrot
+
+/-! ## end to end: from the four-momenta of arbitrary trees to the intensity
+
+`MTree` = isobar tree with the final-state four-momenta at its leaves; `framesOf L t` = the helicity
+frames the source's recursion computes for it (sound convention: a node's angles are those of its
+first child, the helicity state), `EventOK` = the genericity guards. -/
+
+/-- (K), packaged: ALL helicity frames (hence all helicity angles) of the rotated event are those
+of the original event except the root frame (`R·h·Rz(−δ)`) and the first frame below the root in
+each child subtree (`Rz(±δ)·h`: polar angle unchanged, azimuth shifted by ±δ); every deeper frame
+is identical. Every tree shape, every depth, any frame `L` in which the node is at rest. -/
+theorem C04_K_all_helicity_frames {R : Matrix (Fin 3) (Fin 3) ℝ} (hR : IsRot R)
+    (L : Matrix (Fin 4) (Fin 4) ℝ) (c₁ c₂ : MTree)
+    (hP : 0 < nrm (sp (L *ᵥ c₁.mom)))
+    (hrest : sp (L *ᵥ c₂.mom) = -sp (L *ᵥ c₁.mom))
+    (hoff : offAxis (sp (L *ᵥ c₁.mom))) (hoff' : offAxis (R *ᵥ sp (L *ᵥ c₁.mom)))
+    (h1 : topOffAxis (helframe (L *ᵥ c₁.mom) * L) c₁)
+    (h2 : topOffAxis (helframe (L *ᵥ c₂.mom) * L) c₂) :
+    ∃ δ : ℝ, framesOf (emb R * L) (.node c₁ c₂)
+      = .node (R * hframe (phiOf (sp (L *ᵥ c₁.mom))) (thetaOf (sp (L *ᵥ c₁.mom))) * Rz3 (-δ))
+          ((framesOf (helframe (L *ᵥ c₁.mom) * L) c₁).shift δ)
+          ((framesOf (helframe (L *ᵥ c₂.mom) * L) c₂).shift (-δ)) :=
+  rotated_event_frames hR L c₁ c₂ hP hrest hoff hoff' h1 h2
+
+/-- END TO END (conditional on `RepFamily` only): events of arbitrary isobar trees given by their
+final-state four-momenta in the initial-state rest frame, every proper rotation `R` applied to all
+momenta (`framesOf (emb R)`), helicity frames computed as the source does from the regenerated
+`Phi`, `Theta`, `RotZ`, `RotY`, `BoostZ`: the unpolarised intensity is unchanged — for any finite set
+of topologies with spinless final states, and for a single topology with any final-state spins. -/
+theorem C04_end_to_end (F : RepFamily) (T : Type) [Fintype T] (tree : T → Tree) (c : T → ℂ)
+    (c₁ c₂ : T → MTree) (R : Matrix (Fin 3) (Fin 3) ℝ) (twoJ : ℕ) (hJ : F.ok twoJ) (hR : IsRot R)
+    (ht : ∀ t, (tree t).twoSpin = twoJ ∧ (tree t).spinsOk F)
+    (hcase : (∀ t, (tree t).spinlessLeaves) ∨ Subsingleton T)
+    (hev : ∀ t, EventOK R (c₁ t) (c₂ t)) :
+    ∑ m ∈ projs twoJ, Complex.normSq (∑ t, c t * amp F (tree t) (framesOf (emb R) (.node (c₁ t) (c₂ t))) m)
+      = ∑ m ∈ projs twoJ, Complex.normSq (∑ t, c t * amp F (tree t) (framesOf 1 (.node (c₁ t) (c₂ t))) m) :=
+  intensity_rotated_full F T tree c _ _ R twoJ hJ hR ht hcase
+    (fun t => rotated_of_event_at_rest hR (c₁ t) (c₂ t) (hev t))
+
+/-- END TO END, UNCONDITIONAL for spins 0 and 1 (no representation hypothesis at all). -/
+theorem C04_end_to_end_J01 (T : Type) [Fintype T] (tree : T → Tree) (c : T → ℂ)
+    (c₁ c₂ : T → MTree) (R : Matrix (Fin 3) (Fin 3) ℝ) (twoJ : ℕ) (hJ : twoJ = 0 ∨ twoJ = 2)
+    (hR : IsRot R) (ht : ∀ t, (tree t).twoSpin = twoJ ∧ (tree t).spinsOk F01)
+    (hcase : (∀ t, (tree t).spinlessLeaves) ∨ Subsingleton T)
+    (hev : ∀ t, EventOK R (c₁ t) (c₂ t)) :
+    ∑ m ∈ projs twoJ, Complex.normSq (∑ t, c t * amp F01 (tree t) (framesOf (emb R) (.node (c₁ t) (c₂ t))) m)
+      = ∑ m ∈ projs twoJ, Complex.normSq (∑ t, c t * amp F01 (tree t) (framesOf 1 (.node (c₁ t) (c₂ t))) m) :=
+  C04_end_to_end F01 T tree c c₁ c₂ R twoJ hJ hR ht hcase hev
 
 /-! ## non-vacuity -/
 
@@ -358,6 +468,39 @@ example : Rotated (Ry3 0.7) (.node (Rz3 0.2) (.node (Ry3 0.4) .leaf .leaf) .leaf
     (.node (Ry3 0.7 * Rz3 0.2 * Rz3 (-0.3)) (.node (Rz3 0.3 * Ry3 0.4 * Rz3 (-0)) .leaf .leaf) .leaf) :=
   Rotated.node _ _ _ _ _ _ 0.3 (Rz3_isRot _)
     (Rotated.node _ _ _ _ _ _ 0 (Ry3_isRot _) (Rotated.leaf _) (Rotated.leaf _)) (Rotated.leaf _)
+
+/-- a three-body event meeting `EventOK`: (a b) c with the pair moving along x -/
+noncomputable def evA : MTree := .node (.leaf ![1, 1/2, 1, 0]) (.leaf ![2, 1/2, -1, 0])
+noncomputable def evC : MTree := .leaf ![2, -1, 0, 0]
+
+theorem evA_mom : evA.mom = ![3, 1, 0, 0] := by
+  ext i; fin_cases i <;> simp [evA, MTree.mom] <;> norm_num
+
+theorem phi_x : phiOf ![1, 0, 0] = 0 := by
+  simp [phiOf, PhiOf]
+  have : (⟨1, 0⟩ : ℂ) = 1 := rfl
+  rw [this, Complex.arg_one]
+
+theorem theta_x : thetaOf ![1, 0, 0] = Real.pi / 2 := by
+  simp [thetaOf, ThetaOf]
+
+example : EventOK (Rz3 0.3) evA evC := by
+  have hsp : sp evA.mom = ![1, 0, 0] := by rw [evA_mom]; ext i; fin_cases i <;> simp [sp]
+  refine ⟨?_, ?_, ?_, ?_, ?_, trivial⟩
+  · rw [hsp]; simp [nrm]
+  · rw [hsp]; ext i; fin_cases i <;> simp [evC, MTree.mom, sp]
+  · rw [hsp]; simp [offAxis]
+  · rw [hsp, Rz3_mulVec]
+    simp only [offAxis, Matrix.cons_val_zero, Matrix.cons_val_one]
+    have := Real.sin_sq_add_cos_sq (0.3 : ℝ)
+    nlinarith
+  · have hh : helframe evA.mom = BoostZ (1 / 3) * RotY (-(Real.pi / 2)) := by
+      rw [helframe, hsp, phi_x, theta_x, neg_zero, RotZ_eq, Rz3_zero, emb_one, Matrix.mul_one, evA_mom]
+      simp [nrm]
+    rw [hh, RotY_eq, BoostZ_eq]
+    constructor <;>
+      simp [topOffAxis, offAxis, evA, MTree.mom, sp, emb, Ry3, Matrix.mulVec, dotProduct, Fin.sum_univ_four,
+        Matrix.mul_apply]
 
 /-- the index hypothesis of the multi-topology theorem holds for ρπ (`ι = id`, spectator spin 0) -/
 example : ∀ l, W1.wt (id l) = W1.wt l - 0 := fun _ => by simp
